@@ -162,6 +162,9 @@ func (f *CFF2) LoadGlyph(glyph tables.GlyphID, coords []tables.Coord) ([]ot.Segm
 		}
 	}
 
+	if int(index) >= len(f.fonts) { // invalid font: empty Font DICT INDEX
+		return nil, ps.PathBounds{}, fmt.Errorf("invalid font dict index %d", index)
+	}
 	font := f.fonts[index]
 
 	loader.coords = coords
